@@ -304,10 +304,11 @@ def prims(op: int, code: bytes, pc: int, stack: list, sc: dict, contracts: dict 
                 flag = sig[64] if len(sig) == 65 else 0
                 out.append(_verify(top(1), message(sc, flag), sig[:64]))
         elif op == 60:
-            if n >= 2:
+            if n >= 1:
                 h1 = hashlib.sha256(top(1)).digest()
                 out.append(ent('sha256', [top(1)], [h1]))
                 out.append(ent('sha256', [h1], [hashlib.sha256(h1).digest()]))
+            if n >= 2:
                 out.append(ent('sha256', [top(2)], [hashlib.sha256(top(2)).digest()]))
         elif op in (65, 66):
             if n >= 2 and len(top(1)) == 4 and len(top(2)) == 4:
@@ -370,6 +371,11 @@ def prims(op: int, code: bytes, pc: int, stack: list, sc: dict, contracts: dict 
         elif op == 81:
             if n >= 3:
                 out.append(masu(top(1), top(2), top(3)))
+        elif op == 82:
+            if n >= 3 and len(top(2)) >= 32:
+                t = E.clamp(top(2))
+                r = _base(t)
+                out.append(ent('derive_point', [t], err=r) if isinstance(r, str) else ent('derive_point', [t], [r]))
         elif op == 83:
             if n >= 5:
                 out.append(cas(*tops(5)))
